@@ -89,3 +89,106 @@ func c10ProcessorHistory(r *Run) {
 		}
 	}
 }
+
+// a node processor that EDITS EXISTING ATTRIBUTE VALUES IN PLACE (`n.Attr[i].Val = ...`, the way docs/nodeprocessor.md shows): what it
+// is handed are the render's own nodes, so the edit never reaches the loaded template or the caller's nodes
+type c10Rewriter struct{}
+
+func (p *c10Rewriter) New() vuego.NodeProcessor { return &c10Rewriter{} }
+func (p *c10Rewriter) rewrite(nodes []*html.Node) {
+	var walk func(n *html.Node)
+	walk = func(n *html.Node) {
+		if n.Type == html.ElementNode {
+			for i := range n.Attr {
+				if (n.Attr[i].Key == "src" || n.Attr[i].Key == "href") && strings.HasPrefix(n.Attr[i].Val, "/") {
+					n.Attr[i].Val = "/cdn" + n.Attr[i].Val
+				}
+			}
+		}
+		for c := n.FirstChild; c != nil; c = c.NextSibling {
+			walk(c)
+		}
+	}
+	for _, n := range nodes {
+		walk(n)
+	}
+}
+func (p *c10Rewriter) PreProcess(nodes []*html.Node) error  { p.rewrite(nodes); return nil }
+func (p *c10Rewriter) PostProcess(nodes []*html.Node) error { return nil }
+
+// c10InPlaceProcessorHistory: an engine with the in-place rewriting processor renders the same pages repeatedly (all entry points, the
+// caller-parsed nodes of RenderNodes included): every render equals the same render on a fresh engine, and the caller's nodes are unchanged.
+func c10InPlaceProcessorHistory(r *Run) {
+	files := map[string]string{
+		"a.vuego":            `<div class="card"><a href="/docs/{{ t }}">Intro</a><img src="/img/logo.png" alt="logo"></div>`,
+		"b.vuego":            `<pre v-pre><a href="/raw/{{ not_evaluated }}">source</a></pre><p>{{ t }}</p>`,
+		"c.vuego":            "---\nlayout: main\n---\n<a href=\"/in-layout/{{ t }}\">x</a>",
+		"layouts/main.vuego": `<main v-html="content"></main><a href="/footer">f</a>`,
+		"d.vuego":            `<ul><li v-for="x in xs"><a href="/item" :title="x">i</a></li></ul><template include="a.vuego"></template>`,
+	}
+	mfs := fstest.MapFS{}
+	for n, c := range files {
+		mfs[n] = &fstest.MapFile{Data: []byte(c), ModTime: time.Unix(1700000000, 0)}
+	}
+	mk := func() vuego.Template { return vuego.NewFS(mfs, vuego.WithProcessor(&c10Rewriter{})) }
+	data := func(val string) map[string]any { return map[string]any{"t": val, "xs": []any{"p", "q"}} }
+	render := func(t vuego.Template, page, val, entry string) string {
+		var buf bytes.Buffer
+		var err error
+		switch entry {
+		case "vue":
+			err = vuego.VerifVue(t).Render(&buf, page, data(val))
+		case "fragment":
+			err = vuego.VerifVue(t).RenderFragment(&buf, page, data(val))
+		default:
+			err = t.Load(page).Fill(data(val)).Render(context.Background(), &buf)
+		}
+		if err != nil {
+			return "ERROR: " + err.Error()
+		}
+		return buf.String()
+	}
+	for _, entry := range []string{"template", "vue", "fragment"} {
+		long := mk()
+		var hist []string
+		for i, st := range []struct{ page, val string }{{"a.vuego", "one"}, {"a.vuego", "one"}, {"b.vuego", "x"}, {"b.vuego", "x"}, {"c.vuego", "y"}, {"c.vuego", "y"}, {"d.vuego", "z"}, {"d.vuego", "z"}, {"a.vuego", "two"}} {
+			if entry != "template" && strings.HasPrefix(files[st.page], "---") {
+				continue
+			}
+			got := render(long, st.page, st.val, entry)
+			want := render(mk(), st.page, st.val, entry)
+			name := fmt.Sprintf("inplace-processor-history %s step %d (%s)", entry, i, st.page)
+			c := &Case{Name: name, Key: name, Input: map[string]any{"kind": "processor-history", "step": i}, Impl: map[string]any{"out": got}, Oracle: &Verdict{OK: true}, Tags: []string{"stream:inplace-processor-history", "entry:" + entry}}
+			if got != want || strings.Contains(got, "/cdn/cdn") {
+				c.Oracle = &Verdict{OK: false, Class: "differs-from-fresh:processor-inplace-edit", Detail: fmt.Sprintf("step %d renders %s via %s after %v: the engine in use gives %q, a fresh engine %q", i, st.page, entry, hist, got, want)}
+			}
+			r.Add(c)
+			hist = append(hist, st.page)
+		}
+	}
+	// RenderNodes: the caller's own nodes, rendered twice
+	src := `<img src="/img/{{ t }}.png" alt="x"><a href="/n">n</a>`
+	nodes, perr := vuego.VerifParseTemplateBytes([]byte(src))
+	if perr == nil {
+		before := renderNodesToString(nodes)
+		eng := vuego.VerifVue(mk())
+		var o1, o2 bytes.Buffer
+		e1 := eng.RenderNodes(&o1, nodes, data("logo"))
+		e2 := eng.RenderNodes(&o2, nodes, data("logo"))
+		after := renderNodesToString(nodes)
+		name := "inplace-processor-history render-nodes"
+		c := &Case{Name: name, Key: name, Input: map[string]any{"kind": "processor-history", "step": -1}, Impl: map[string]any{"out": o1.String(), "second": o2.String()}, Oracle: &Verdict{OK: true}, Tags: []string{"stream:inplace-processor-history", "entry:render-nodes"}}
+		if e1 != nil || e2 != nil || before != after || o1.String() != o2.String() {
+			c.Oracle = &Verdict{OK: false, Class: "differs-from-fresh:processor-inplace-edit", Detail: fmt.Sprintf("RenderNodes twice over the caller's nodes: errors %v %v; nodes before %q after %q; first %q second %q", e1, e2, before, after, o1.String(), o2.String())}
+		}
+		r.Add(c)
+	}
+}
+
+func renderNodesToString(nodes []*html.Node) string {
+	var b bytes.Buffer
+	for _, n := range nodes {
+		_ = html.Render(&b, n)
+	}
+	return b.String()
+}
